@@ -1,10 +1,133 @@
-/- Line-protocol driver for C18 (stub until the property's models exist). -/
+/-
+  Line-protocol driver for C18 (HPM.1 image parser and firmware upload).
+
+    consts                                  -> the generated constants this binary was built from
+    spec <18 header nats> <oemhex> <digesthex> <rec>*
+                                            -> <image hex> # <view demanded by Spec.HpmFormat>
+        rec ::= s:<kind>:<comp> | u:<comp>:<maj>:<min>:<a0>:<a1>:<a2>:<a3>:<deschex>:<fwhex>
+    parse <oemWholeRest 0|1> <descEscapes 0|1> <image hex>
+                                            -> <view> | <error tag>              (Model)
+    chunks <n> <hex>                        -> <hex> <hex> …                     (Model)
+    upload <bs> <timeout> <interval> <lat> <retry> <binary hex> <plan>
+                                            -> <tag> <now> <trace>               (Model × Spec device)
+        plan ::= - | item,item,…   item ::= o | p<polls> | e<cc> | t     (blocks beyond the list: o)
+        trace ::= token*           token ::= B<num>:<hex> | S
+    judge <bs> <plan> <binary hex> <trace>  -> exact=<0|1> data=<0|1> numbered=<0|1> polls=<0|1>  (Spec oracle)
+    judgeabort <bs> <plan> <binary hex> <j> <trace> -> aborted=<0|1>
+-/
 import PyIpmi.Base.Proto
-open PyIpmi.Proto
+import PyIpmi.Model.Hpm
+open PyIpmi PyIpmi.Proto PyIpmi.Hpm
+open PyIpmi.Spec.HpmFormat PyIpmi.Spec.HpmDevice
+
+def showVersion (v : VersionView) : String :=
+  s!"{v.major}.{v.minor}." ++ (match v.aux with | some a => toHex a | none => "n")
+
+def showHeader (h : HeaderView) : String :=
+  s!"H sig={toHex h.signature} fv={h.formatVersion} dev={h.deviceId} man={h.manufacturerId} prod={h.productId} " ++
+  s!"time={h.time} cap={h.capabilities} comps={natList h.components} st={h.selftestTimeout} rb={h.rollbackTimeout} " ++
+  s!"ina={h.inaccessibilityTimeout} ecr={showVersion h.earliest} fr={showVersion h.firmwareRevision} " ++
+  s!"oemlen={h.oemLength} oem={toHex h.oem} chk={h.checksum} len={h.length}"
+
+def showAction (a : ActionView) : String :=
+  s!"A t={a.actionType} c={a.components} k={a.checksum} l={a.length}" ++
+  (match a.upload with
+   | some u => s!" U v={showVersion u.version} d={natList u.description} n={u.firmwareLength} fw={toHex u.firmware}"
+   | none => "")
+
+def showImage (i : ImageView) : String :=
+  " | ".intercalate ([showHeader i.header] ++ i.actions.map showAction ++
+    [s!"T tr={toHex i.trailer} ex={toHex i.expected}"])
+
+def parseRec (s : String) : Option Record :=
+  match s.splitOn ":" with
+  | ["s", k, c] => do pure (.simple (← k.toNat?) (← c.toNat?))
+  | ["u", c, maj, min, a0, a1, a2, a3, d, fw] => do
+    pure (.upload (← c.toNat?) ⟨← maj.toNat?, ← min.toNat?, ← a0.toNat?, ← a1.toNat?, ← a2.toNat?, ← a3.toNat?⟩
+      (← ofHex d) (← ofHex fw))
+  | _ => none
+
+def parsePlanItem (s : String) : Option Reply :=
+  if s == "o" then some .ok
+  else if s == "t" then some .noAnswer
+  else if s.startsWith "p" then (s.drop 1).toNat?.map .inProgress
+  else if s.startsWith "e" then (s.drop 1).toNat?.map .err
+  else none
+
+def parsePlan (s : String) : Option (Nat → Reply) :=
+  if s == "-" then some (fun _ => .ok)
+  else (s.splitOn ",").mapM parsePlanItem |>.map fun l => fun i => l.getD i .ok
+
+def showEv : Ev → String
+  | .block n d => s!"B{n}:{toHex d}"
+  | .status => "S"
+
+def parseEv (s : String) : Option Ev :=
+  if s == "S" then some .status
+  else if s.startsWith "B" then
+    match (s.drop 1).toString.splitOn ":" with
+    | [n, h] => do pure (.block (← n.toNat?) (← ofHex h))
+    | _ => none
+  else none
+
+def b01 (b : Bool) : String := if b then "1" else "0"
+
+def bit (s : String) : Option Bool := if s == "1" then some true else if s == "0" then some false else none
+
+def consts : String :=
+  let g := [Gen.Hpm.blockSize, Gen.Hpm.blockMask, Gen.Hpm.blockIncr, Gen.Hpm.firstBlock, Gen.Hpm.ccInProgress,
+            Gen.Hpm.oemStart, Gen.Hpm.trailerLen, Gen.Hpm.upDataStart, Gen.Hpm.upLenExtra, Gen.Hpm.recHeaderLen,
+            Gen.Hpm.defaultRetry, Gen.Hpm.defaultTimeoutTenths, Gen.Hpm.defaultIntervalTenths,
+            Gen.Hpm.minorBcdMax, Gen.Hpm.minorUndefined]
+  natList g
 
 def handleC18 (line : String) : String :=
   match tokens line with
   | ["ping"] => "pong"
+  | ["consts"] => consts
+  | "spec" :: fv :: dev :: man :: prod :: tm :: cap :: comps :: st :: rb :: ina :: emaj :: emin ::
+      fmaj :: fmin :: a0 :: a1 :: a2 :: a3 :: oem :: dig :: recs =>
+    let r : Option String := do
+      let h : Header := {
+        formatVersion := ← fv.toNat?, deviceId := ← dev.toNat?, manufacturerId := ← man.toNat?,
+        productId := ← prod.toNat?, time := ← tm.toNat?, capabilities := ← cap.toNat?,
+        componentsMask := ← comps.toNat?, selftestTimeout := ← st.toNat?, rollbackTimeout := ← rb.toNat?,
+        inaccessibilityTimeout := ← ina.toNat?,
+        earliest := ⟨← emaj.toNat?, ← emin.toNat?, 0, 0, 0, 0⟩,
+        firmwareRevision := ⟨← fmaj.toNat?, ← fmin.toNat?, ← a0.toNat?, ← a1.toNat?, ← a2.toNat?, ← a3.toNat?⟩,
+        oem := ← ofHex oem }
+      let d ← ofHex dig
+      let rs ← recs.mapM parseRec
+      let img : Image := ⟨h, rs⟩
+      pure (toHex (encodeImage (fun _ => d) img) ++ " # " ++ showImage (img.view (fun _ => d)))
+    r.getD "bad-op"
+  | ["parse", ow, de, h] =>
+    match bit ow, bit de, ofHex h with
+    | some ow, some de, some bs =>
+      match parseImage ⟨ow, de⟩ bs with
+      | .ok v => showImage v
+      | e => e.tag
+    | _, _, _ => "bad-op"
+  | ["chunks", n, h] =>
+    match n.toNat?, ofHex h with
+    | some n, some bs => " ".intercalate ((chunks n bs).map toHex)
+    | _, _ => "bad-op"
+  | ["upload", bs, timeout, interval, lat, retry, bin, plan] =>
+    match bs.toNat?, timeout.toNat?, interval.toNat?, lat.toNat?, parseInt retry, ofHex bin, parsePlan plan with
+    | some bs, some timeout, some interval, some lat, some retry, some bin, some plan =>
+      let (o, s) := uploadBinary bs timeout interval lat retry bin (Dev.init plan)
+      s!"{o.tag} {s.now} " ++ " ".intercalate (s.dev.trace.map showEv)
+    | _, _, _, _, _, _, _ => "bad-op"
+  | "judge" :: bs :: plan :: bin :: trace =>
+    match bs.toNat?, parsePlan plan, ofHex bin, trace.mapM parseEv with
+    | some bs, some plan, some bin, some tr =>
+      s!"exact={b01 (uploadExact bs plan bin tr)} data={b01 (decide (((blocksOf tr).map (·.2)).flatten = bin))} " ++
+      s!"numbered={b01 (numberedFrom bs 0 (blocksOf tr))} polls={b01 (pollsOk plan 0 tr)}"
+    | _, _, _, _ => "bad-op"
+  | "judgeabort" :: bs :: plan :: bin :: j :: trace =>
+    match bs.toNat?, parsePlan plan, ofHex bin, j.toNat?, trace.mapM parseEv with
+    | some bs, some plan, some bin, some j, some tr => s!"aborted={b01 (uploadAbortedAt bs plan bin j tr)}"
+    | _, _, _, _, _ => "bad-op"
   | _ => "bad-op"
 
 def main : IO Unit := do
